@@ -9,7 +9,7 @@ import (
 
 // TxOpts bounds the transaction generator.
 type TxOpts struct {
-	MinIn, MaxIn   int   // small-count range
+	MinIn, MaxIn   int // small-count range
 	MinOut, MaxOut int
 	BigCounts      []int // low-weight boundary counts (e.g. 252, 253, 254, 300)
 	MaxScript      int   // upper bound for script lengths
@@ -131,4 +131,51 @@ func HugeField(t *rapid.T, m *ref.Tx) string {
 		}
 		return "huge=output-first"
 	}
+}
+
+// TemplateLike draws a script that is a standard template or one step away from one: P2PKH,
+// P2PK, P2SH and bare multisig with the exact bytes, with the closing opcodes replaced, with the
+// hash / key one byte shorter or longer, with the hash pushed through OP_PUSHDATA1, with an opcode
+// appended or the first byte changed. Fast paths keyed to "looks like a template" meet them.
+func TemplateLike(t *rapid.T, label string) []byte {
+	h := Bytes(t, 20, label+"_h")
+	k := append([]byte{0x02}, Bytes(t, 32, label+"_k")...)
+	var s []byte
+	switch rapid.IntRange(0, 4).Draw(t, label+"_tpl") {
+	case 0, 1:
+		s = append(append([]byte{0x76, 0xa9, 0x14}, h...), 0x88, 0xac)
+	case 2:
+		s = append(append([]byte{0x21}, k...), 0xac)
+	case 3:
+		s = append(append([]byte{0xa9, 0x14}, h...), 0x87)
+	default:
+		s = append(append(append(append([]byte{0x51, 0x21}, k...), 0x21), k...), 0x52, 0xae)
+	}
+	switch rapid.IntRange(0, 9).Draw(t, label+"_dev") {
+	case 0, 1, 2: // exact
+	case 3: // last opcode replaced
+		s[len(s)-1] = rapid.SampledFrom([]byte{0xad, 0x69, 0x87, 0x88, 0xac, 0xae, 0x00, 0x51}).Draw(t, label+"_last")
+	case 4: // last two bytes replaced
+		if len(s) >= 2 {
+			s[len(s)-2] = rapid.SampledFrom([]byte{0x87, 0x88, 0x69, 0x75, 0xac}).Draw(t, label+"_l2")
+			s[len(s)-1] = rapid.SampledFrom([]byte{0x69, 0xad, 0x51, 0xac, 0x87}).Draw(t, label+"_l1")
+		}
+	case 5: // one byte shorter (same announced push length: the push swallows the next opcode)
+		s = append(s[:3:3], s[4:]...)
+	case 6: // an opcode appended
+		s = append(s, rapid.SampledFrom([]byte{0x61, 0x75, 0x51, 0x6a, 0xac}).Draw(t, label+"_app"))
+	case 7: // first byte changed
+		s[0] = rapid.SampledFrom([]byte{0x00, 0x6a, 0x78, 0xa9, 0x76, 0x51}).Draw(t, label+"_first")
+	case 8: // P2PKH with the hash pushed through OP_PUSHDATA1 (26 bytes) or cut to 25 by dropping the last opcode
+		if s[0] == 0x76 {
+			s = append(append([]byte{0x76, 0xa9, 0x4c, 0x14}, h...), 0x88, 0xac)
+			if rapid.Bool().Draw(t, label+"_cut") {
+				s = s[:25]
+			}
+		}
+	default: // one byte of the body flipped
+		i := rapid.IntRange(0, len(s)-1).Draw(t, label+"_at")
+		s[i] ^= 1 << rapid.IntRange(0, 7).Draw(t, label+"_bit")
+	}
+	return s
 }
